@@ -79,7 +79,9 @@ def diagnose(trace, cfg="Trace_Engine"):
     for m in re.finditer(r'<<"REACHED", (?:"[^"]*"|-?\d+), (\d+)>>', r.out):
         reached = max(reached, int(m.group(1)))
     ev = trace["ev"]
-    at = ev[reached - 1] if reached - 1 < len(ev) else None
     inv = r.violated
-    return {"accepted_prefix": reached - 1, "length": len(ev), "rejected_event": at,
+    # state l = k+1 is the state after event k; if that state breaks a clause, event k is the culprit
+    pre = reached - 2 if (inv and reached >= 2) else reached - 1
+    at = ev[pre] if 0 <= pre < len(ev) else None
+    return {"accepted_prefix": pre, "length": len(ev), "rejected_event": at,
             "violated": inv, "tlc_error": r.error if not r.ok else None}
